@@ -215,3 +215,49 @@ Definition c_cuts (cfg : config) : list N :=
 (* representative of x's class: the largest cut point <= x (0 when there is none) *)
 Definition rep (cuts : list N) (x : N) : N :=
   fold_left (fun m p => if (N.leb p x && N.ltb m p)%bool then p else m) cuts 0%N.
+
+(* ---- validation that REJECTS unparseable ranges (variant "repaired", fixes/C14_validate_rejects_malformed) ----
+   ValidateMatchIndex today skips a range whose svlan or cvlan string does not parse ([validate] above, variant
+   "defective": the candidate is accepted and the range is silently dead).  The repaired function walks the same
+   groups and ranges in the same order and returns an error at the first unparseable string or the first
+   collision, whichever comes first. *)
+Inductive item :=
+| IClaim (c : claim)
+| IBad (name : str) (idx : nat) (is_svlan : bool).
+
+Definition range_items (name : str) (i : nat) (r : vrange) : list item :=
+  match parse_vlan_range (fst r) with
+  | None => [IBad name i true]                      (* GetSVLANs is called first *)
+  | Some svs =>
+      match parse_cvlan (snd r) with
+      | None => [IBad name i false]
+      | Some se => map (fun s => IClaim {| c_svlan := s; c_sel := se; c_name := name; c_idx := i |}) svs
+      end
+  end.
+Fixpoint group_items (name : str) (i : nat) (rs : list vrange) : list item :=
+  match rs with
+  | [] => []
+  | r :: rest => range_items name i r ++ group_items name (S i) rest
+  end.
+Definition items (cfg : config) : list item :=
+  flat_map (fun g : group => group_items (fst g) 0 (snd g)) (sort_groups cfg).
+
+Inductive verdict :=
+| VOk
+| VCollision (svlan : N) (se : sel) (prev name : str)
+| VMalformed (name : str) (idx : nat) (is_svlan : bool).
+
+Fixpoint strict_aux (seen : list claim) (its : list item) : verdict :=
+  match its with
+  | [] => VOk
+  | IBad n i w :: _ => VMalformed n i w
+  | IClaim c :: rest =>
+      match find (key_eqb (c_svlan c) (c_sel c)) seen with
+      | Some p => VCollision (c_svlan c) (c_sel c) (c_name p) (c_name c)
+      | None => strict_aux (c :: seen) rest
+      end
+  end.
+Definition validate_strict (cfg : config) : verdict := strict_aux [] (items cfg).
+
+Definition range_ok (r : vrange) : bool :=
+  match parse_vlan_range (fst r), parse_cvlan (snd r) with Some _, Some _ => true | _, _ => false end.
